@@ -66,6 +66,9 @@ TProbe ==
     /\ kr = R.kr
     /\ UNCHANGED vars
 
+\* (c) plaintext-at-rest scan lines: observations attached to a scripted history, no model step
+TScan == R.op \in {"Scan", "ScanEnd"} /\ UNCHANGED vars
+
 Seen(n) == TLCSet(1, IF TLCGet(1) < n THEN n ELSE TLCGet(1))
 
 TraceInit ==
@@ -78,7 +81,7 @@ TraceInit ==
 
 TraceNext ==
     \/ /\ l <= Len(Rec)
-       /\ (TReset \/ TBegin \/ TGet \/ TSet \/ TEnd \/ TWrite \/ TClose \/ TProbe)
+       /\ (TReset \/ TBegin \/ TGet \/ TSet \/ TEnd \/ TWrite \/ TClose \/ TProbe \/ TScan)
        /\ l' = l + 1
        /\ Seen(l + 1)
     \/ /\ l <= Len(Rec)
@@ -90,6 +93,19 @@ TraceSpec == TraceInit /\ [][TraceNext]_tvars
 \* property invariants evaluated on every state of every explanation of the real trace
 InvC13 == /\ KeyCreatedOnce /\ OpensUseKeyringKey /\ WrongKeyNeverOpens
           /\ ExistingFileNeverGeneratesKey /\ PermsOwnerOnly /\ MatrixAgrees
+
+\* scan invariant on the line just consumed: nothing sensitive in any file of the database directory, all files
+\* owner-only, data readable after reopen; on the unencrypted control database the scanner must find every canary kind
+InvScan ==
+    (l > 2 /\ l - 1 <= Len(Rec)) =>
+      LET x == Rec[l - 1] IN
+      /\ (x.op = "Scan") =>
+           /\ \A i \in DOMAIN x.files : x.files[i].mode = "secure"
+           /\ x.dmode = "secure"
+           /\ (x.step = "reopened") => x.res = "DataReadable"
+           /\ (x.mode = "keyring") => x.leaks = <<>>
+      /\ (x.op = "ScanEnd" /\ x.mode = "keyring") => x.transient_leaks = <<>>
+      /\ (x.op = "ScanEnd" /\ x.mode = "unenc") => Rng(x.kinds) \subseteq Rng(x.found_kinds)
 
 \* acceptance: some explanation consumed every line
 TraceAccepted ==
